@@ -29,7 +29,7 @@ package buffer
 //@   props C03 C04
 //@   requires ReaderOK(reader)
 //@   ensures [consume1] result.1 == nil ==> (reader.Buffer.#pos == old(reader.Buffer.#pos) + 1 && result.0 == stream(reader.Buffer, old(reader.Buffer.#pos)))
-//@   ensures [err-consume0] result.1 != nil ==> reader.Buffer.#pos == old(reader.Buffer.#pos)
+//@   ensures [err-consume0] result.1 != nil ==> (reader.Buffer.#pos == old(reader.Buffer.#pos) && result.0 == 0)
 //@   ensures [transport-err] result.1 != nil ==> !isExceeded(result.1)
 //@   modifies reader.Buffer.#pos
 
@@ -57,6 +57,7 @@ package buffer
 //@   ensures [exceed-untouched] {C10} (reader.Buffer.#pos >= old(reader.Buffer.#pos) + 4 && (sbe32(reader.Buffer, old(reader.Buffer.#pos)) - 4 > reader.MaxMessageSize || sbe32(reader.Buffer, old(reader.Buffer.#pos)) - 4 < 0)) ==> (reader.Msg == old(reader.Msg) && reader.Buffer.#pos == old(reader.Buffer.#pos) + 4 && #maxalloc == old(#maxalloc) && #nalloc == old(#nalloc))
 //@   ensures [within-not-exceeded] {C10} (result.1 != nil && isExceeded(result.1)) ==> (reader.Buffer.#pos == old(reader.Buffer.#pos) + 4 && excSize(result.1) == sbe32(reader.Buffer, old(reader.Buffer.#pos)) - 4 && excMax(result.1) == reader.MaxMessageSize && (excSize(result.1) > reader.MaxMessageSize || excSize(result.1) < 0) && reader.Msg == old(reader.Msg))
 //@   ensures [short] result.1 != nil ==> reader.Buffer.#pos >= old(reader.Buffer.#pos)
+//@   ensures [exceeded-text] (result.1 != nil && isExceeded(result.1)) ==> (ErrTextOK(result.1) && specCode(result.1) == "54000" && specSeverity(result.1) == "ERROR")
 //@   ensures [alloc-bound] {C04 C10} #maxalloc <= max(old(#maxalloc), max(reader.MaxMessageSize, 4096))
 //@   ensures [no-overwrite] {C18} (wa <= old(#alloc) && Exposed(old(reader.Msg), wa, wi)) ==> mem(wa, wi) == old(mem(wa, wi))
 //@   ensures [stays-exposed] {C18} (wa <= old(#alloc) && Exposed(old(reader.Msg), wa, wi)) ==> Exposed(reader.Msg, wa, wi)
@@ -74,11 +75,13 @@ package buffer
 //@   ensures [body] result.2 == nil ==> (forall k :: (0 <= k && k < len(reader.Msg)) ==> reader.Msg[k] == stream(reader.Buffer, old(reader.Buffer.#pos) + 5 + k))
 //@   ensures [limit-exact] {C10} result.2 == nil ==> (0 <= len(reader.Msg) && len(reader.Msg) <= reader.MaxMessageSize)
 //@   ensures [exceeded] {C10} (result.2 != nil && isExceeded(result.2)) ==> (reader.Buffer.#pos == old(reader.Buffer.#pos) + 5 && excSize(result.2) == sbe32(reader.Buffer, old(reader.Buffer.#pos) + 1) - 4 && (excSize(result.2) > reader.MaxMessageSize || excSize(result.2) < 0) && reader.Msg == old(reader.Msg))
+//@   ensures [exceeded-text] (result.2 != nil && isExceeded(result.2)) ==> (ErrTextOK(result.2) && specCode(result.2) == "54000" && specSeverity(result.2) == "ERROR")
 //@   ensures [exceed-error] {C10} (reader.Buffer.#pos >= old(reader.Buffer.#pos) + 5 && (sbe32(reader.Buffer, old(reader.Buffer.#pos) + 1) - 4 > reader.MaxMessageSize || sbe32(reader.Buffer, old(reader.Buffer.#pos) + 1) - 4 < 0)) ==> (result.2 != nil && isExceeded(result.2))
 //@   ensures [alloc-bound] {C04 C10} #maxalloc <= max(old(#maxalloc), max(reader.MaxMessageSize, 4096))
 //@   ensures [no-overwrite] {C18} (wa <= old(#alloc) && Exposed(old(reader.Msg), wa, wi)) ==> mem(wa, wi) == old(mem(wa, wi))
 //@   ensures [stays-exposed] {C18} (wa <= old(#alloc) && Exposed(old(reader.Msg), wa, wi)) ==> Exposed(reader.Msg, wa, wi)
 //@   ensures [window] Advanced(reader.Msg, old(reader.Msg)) || arr(reader.Msg) > old(#alloc)
+//@   ensures [err-zero] result.2 != nil ==> (result.0 == 0 && result.1 == 0)
 //@   ensures [in-count] (result.2 == nil ==> (#nIn == old(#nIn) + 1 && #lastIn == result.0)) && (result.2 != nil ==> (#nIn == old(#nIn) && #lastIn == old(#lastIn)))
 //@   ghostset #nIn = old(#nIn) + 1 if result.2 == nil
 //@   ghostset #lastIn = result.0 if result.2 == nil
@@ -90,6 +93,8 @@ package buffer
 //@   requires ReaderOK(reader)
 //@   ensures [ok] ReaderOK(reader)
 //@   ensures [skip-exact] {C10} result == nil ==> reader.Buffer.#pos == old(reader.Buffer.#pos) + max(size, 0)
+//@   ensures [transport-err] result != nil ==> !isExceeded(result)
+//@   ensures [pos-monotone] reader.Buffer.#pos >= old(reader.Buffer.#pos)
 //@   ensures [alloc-bound] {C04 C10} #maxalloc <= max(old(#maxalloc), max(reader.MaxMessageSize, 4096))
 //@   ensures [no-overwrite] {C18} (wa <= old(#alloc) && Exposed(old(reader.Msg), wa, wi)) ==> mem(wa, wi) == old(mem(wa, wi))
 //@   ensures [stays-exposed] {C18} (wa <= old(#alloc) && Exposed(old(reader.Msg), wa, wi)) ==> Exposed(reader.Msg, wa, wi)
